@@ -350,6 +350,9 @@ class Interp(object):
                 return T("(vtruthy %s)" % v.t.s, "Bool")
             if v.sort == "Key":
                 return NOT(EQ(v.t, self.reg.key("")))
+            if v.sort == "V":
+                f = self.reg.ufun("v_truthy", ["V"], "Bool")
+                return T("(%s %s)" % (f, v.t.s), "Bool")
             if v.sort == "Obj":
                 # user objects: truthiness is their own business; abstract predicate
                 f = self.reg.ufun("obj_truthy", ["Obj"], "Bool")
@@ -820,6 +823,14 @@ class Interp(object):
             return [(s, Fun("elem-method", elem=v, name=attr))]
         if isinstance(v, (View, Tup, Str, Opaque)):
             return [(s, Fun("method", recv=v, name=attr))]
+        if isinstance(v, Fun) and v.kind == "super":
+            # super(C, self).<method>: the method as defined by the bases of C (ClassSpec.bases)
+            cs = self.contracts.classes.get(v.cls)
+            for b in (cs.bases if cs else []):
+                k = self.contracts.find_method(b, attr)
+                if k is not None:
+                    return [(s, Fun("bound", contract=k, self_ref=v.self_ref, name=attr))]
+            raise Unsupported("super(%s, self).%s: no contract in the bases" % (v.cls, attr))
         if isinstance(v, Fun) and v.kind == "class":
             return [(s, Fun("classattr", cls=v.name, name=attr))]
         if isinstance(v, Fun) and v.kind == "external" and v.mod == "sys" and v.name == "version_info" and attr == "major":
